@@ -40,6 +40,9 @@ pub enum TableOp {
     Up { k: usize },
     /// the interface's addresses move to another host part in the same subnets
     Move { k: usize },
+    /// the prefix length of the interface's addresses changes (the addresses themselves stay): the
+    /// table shows the old entry gone and a new one with the same address in one poll
+    Reprefix { k: usize },
 }
 
 #[derive(Clone, Debug, Serialize, Deserialize)]
@@ -51,6 +54,9 @@ pub enum Op {
     /// the peer on interface k announces its instance over that family
     Announce { k: usize, v6: bool },
     Query { k: usize, v6: bool },
+    /// a multi-homed peer (instance 'm', host 'MultiHost.local.') announces itself on interface k
+    /// with the address it has there
+    AnnounceMulti { k: usize, v6: bool },
     /// browse the type again: what the cache holds is reported on a new channel
     BrowseAgain,
     Advance { ms: u64 },
@@ -73,6 +79,8 @@ struct Entry {
     v6: bool,
     host: u8,
     up: bool,
+    /// a longer prefix (/25, /65): the same subnet as far as every address used here goes
+    narrow: bool,
 }
 
 fn entry_ip(e: &Entry) -> IpAddr {
@@ -86,7 +94,7 @@ fn entry_ip(e: &Entry) -> IpAddr {
 fn to_simifs(t: &[Entry]) -> Vec<SimIf> {
     t.iter()
         .map(|e| {
-            let mut s = SimIf::new(if_name(e.k), if_index(e.k), entry_ip(e), if e.v6 { 64 } else { 24 });
+            let mut s = SimIf::new(if_name(e.k), if_index(e.k), entry_ip(e), if e.v6 { 64 } else { 24 } + e.narrow as u8);
             s.up = e.up;
             s
         })
@@ -137,6 +145,26 @@ impl ModelState {
     }
 }
 
+/// The multi-homed peer as it announces itself on interface k: the address(es) it has on that link.
+fn multi_svc(k: usize, spec: &[Entry]) -> peer::Svc {
+    let mut addrs = Vec::new();
+    if spec.iter().any(|e| e.k == k && !e.v6) {
+        addrs.push(IpAddr::V4(subnet_v4(k, 110)));
+    }
+    if spec.iter().any(|e| e.k == k && e.v6) {
+        addrs.push(IpAddr::V6(subnet_v6(k, 110)));
+    }
+    peer::Svc {
+        ty: Name::from_escaped(BROWSED),
+        sub: None,
+        inst: b"m".to_vec(),
+        host: Name::from_escaped("MultiHost.local."),
+        port: 8100,
+        txt: vec![0],
+        addrs,
+    }
+}
+
 fn peer_svc(k: usize, spec: &[Entry]) -> peer::Svc {
     let mut addrs = Vec::new();
     if spec.iter().any(|e| e.k == k && !e.v6) {
@@ -165,10 +193,10 @@ pub fn check(case: &Case, ctx: &mut CaseCtx) {
     let mut st = ModelState::default();
     for (k, s) in case.ifs.iter().enumerate() {
         if s.v4 {
-            st.table.push(Entry { k, v6: false, host: 1, up: true });
+            st.table.push(Entry { k, v6: false, host: 1, up: true, narrow: false });
         }
         if s.v6 {
-            st.table.push(Entry { k, v6: true, host: 1, up: true });
+            st.table.push(Entry { k, v6: true, host: 1, up: true, narrow: false });
         }
     }
     let mut d = match SimDaemon::new("D", to_simifs(&st.table), T0, 18) {
@@ -222,6 +250,7 @@ pub fn check(case: &Case, ctx: &mut CaseCtx) {
     let mut registered: Vec<(usize, bool)> = vec![(0, false)];
     let mut queries: Vec<(usize, u64, usize, bool)> = Vec::new();
     let mut announced_on: Vec<(usize, u64, usize, bool)> = Vec::new();
+    let mut multi_on: Vec<(usize, u64, usize, bool)> = Vec::new();
     let mut skipped_announce = 0u32;
     let all_entries_spec: Vec<Entry> = {
         // every (k, family) that exists at some time, for the peers' address sets
@@ -230,7 +259,7 @@ pub fn check(case: &Case, ctx: &mut CaseCtx) {
             if let Op::Table(TableOp::AddFam { k, v6 }) = op {
                 let k = *k % n_if;
                 if !v.iter().any(|e| e.k == k && e.v6 == *v6) {
-                    v.push(Entry { k, v6: *v6, host: 1, up: true });
+                    v.push(Entry { k, v6: *v6, host: 1, up: true, narrow: false });
                 }
             }
         }
@@ -250,7 +279,7 @@ pub fn check(case: &Case, ctx: &mut CaseCtx) {
                     Sel::V6 => (IfKind::IPv6, MSel::V6),
                     Sel::Name(k) => (IfKind::Name(if_name(*k % n_if).to_string()), MSel::Name(*k % n_if)),
                     Sel::Addr(k, v6) => {
-                        let e = Entry { k: *k % n_if, v6: *v6, host: 1, up: true };
+                        let e = Entry { k: *k % n_if, v6: *v6, host: 1, up: true, narrow: false };
                         let ip = entry_ip(&e);
                         // resolved to an index selection if some interface has the address now
                         let m = match st.table.iter().find(|x| x.up && entry_ip(x) == ip) {
@@ -277,7 +306,7 @@ pub fn check(case: &Case, ctx: &mut CaseCtx) {
                         if !st.table.iter().any(|e| e.k == k && e.v6 == *v6) {
                             let up = st.table.iter().find(|e| e.k == k).map_or(true, |e| e.up);
                             let host = st.table.iter().find(|e| e.k == k).map_or(1, |e| e.host);
-                            st.table.push(Entry { k, v6: *v6, host, up });
+                            st.table.push(Entry { k, v6: *v6, host, up, narrow: false });
                         }
                     }
                     TableOp::DelFam { k, v6 } => {
@@ -287,6 +316,7 @@ pub fn check(case: &Case, ctx: &mut CaseCtx) {
                     TableOp::Down { k } => st.table.iter_mut().filter(|e| e.k == *k % n_if).for_each(|e| e.up = false),
                     TableOp::Up { k } => st.table.iter_mut().filter(|e| e.k == *k % n_if).for_each(|e| e.up = true),
                     TableOp::Move { k } => st.table.iter_mut().filter(|e| e.k == *k % n_if).for_each(|e| e.host = if e.host == 1 { 9 } else { 1 }),
+                    TableOp::Reprefix { k } => st.table.iter_mut().filter(|e| e.k == *k % n_if).for_each(|e| e.narrow = !e.narrow),
                 }
                 if st.table != before {
                     dm.set_interfaces(to_simifs(&st.table));
@@ -316,6 +346,18 @@ pub fn check(case: &Case, ctx: &mut CaseCtx) {
                     let src = if *v6 { SocketAddr::new(IpAddr::V6(subnet_v6(k, 100)), MDNS_PORT) } else { SocketAddr::new(IpAddr::V4(subnet_v4(k, 100)), MDNS_PORT) };
                     dm.inject(if_index(k), src, peer::response(s.announcement(120, 4500), vec![]));
                     announced_on.push((pos, now, k, *v6));
+                } else {
+                    skipped_announce += 1;
+                }
+            }
+            Op::AnnounceMulti { k, v6 } => {
+                let k = *k % n_if;
+                let stable = hist.last().map_or(true, |h| now >= h.3);
+                if st.active().contains(&(k, *v6)) && stable {
+                    let s = multi_svc(k, &all_entries_spec);
+                    let src = if *v6 { SocketAddr::new(IpAddr::V6(subnet_v6(k, 110)), MDNS_PORT) } else { SocketAddr::new(IpAddr::V4(subnet_v4(k, 110)), MDNS_PORT) };
+                    dm.inject(if_index(k), src, peer::response(s.announcement(120, 4500), vec![]));
+                    multi_on.push((pos, now, k, *v6));
                 } else {
                     skipped_announce += 1;
                 }
@@ -528,7 +570,8 @@ pub fn check(case: &Case, ctx: &mut CaseCtx) {
                         stale_checked += 1;
                         // learned: an announcement delivered on (k, family of the packet) that carried the address;
                         // the peer's announcement carries both families' addresses, so the packet's family counts
-                        let ok = announced_on.iter().any(|(apos, _, ak, av6)| {
+                        let learned_from = if r.fullname.starts_with("m.") { &multi_on } else { &announced_on };
+                        let ok = learned_from.iter().any(|(apos, _, ak, av6)| {
                             *ak == k
                                 && *apos < pos
                                 // since then the interface has not vanished, and the address's own family has not
@@ -599,6 +642,64 @@ pub fn check(case: &Case, ctx: &mut CaseCtx) {
             }
         }
     }
+    // ---- (E) the multi-homed instance: when an interface other than the one its PTR / SRV / TXT were
+    //          first learned on disappears, it is resolved again with the addresses that are left.
+    //          Judged for the first disappearance after the instance was heard on two interfaces
+    //          that have both been active without interruption since the first announcement.
+    let mut multi_checked = 0u32;
+    if let Some((first_pos, _, home, _)) = multi_on.first().cloned() {
+        'e: for (hi, h) in hist.iter().enumerate() {
+            if hi == 0 || h.0 <= first_pos {
+                continue;
+            }
+            let prev = &hist[hi - 1].2;
+            for k in 0..n_if {
+                let was = prev.present().iter().any(|x| x.0 == k);
+                let is = h.2.present().iter().any(|x| x.0 == k);
+                if !(was && !is) || k == home {
+                    continue;
+                }
+                let heard_on_k: Vec<&(usize, u64, usize, bool)> = multi_on.iter().filter(|m| m.2 == k && m.0 < h.0).collect();
+                if heard_on_k.is_empty() {
+                    continue;
+                }
+                // nothing else happened to the two interfaces in between
+                let states: Vec<&ModelState> = std::iter::once(&state_at(first_pos).2).chain(hist.iter().filter(|hh| hh.0 > first_pos && hh.0 < h.0).map(|hh| &hh.2)).collect();
+                let fams = |kk: usize| -> BTreeSet<(usize, bool)> { states[0].active().into_iter().filter(|x| x.0 == kk).collect() };
+                let (fh, fk) = (fams(home), fams(k));
+                let quiet = !fh.is_empty() && !fk.is_empty() && states.iter().all(|s| fh.iter().chain(fk.iter()).all(|x| s.active().contains(x)) && s.table.iter().filter(|e| e.k == home || e.k == k).eq(states[0].table.iter().filter(|e| e.k == home || e.k == k)));
+                let home_stays = fh.iter().all(|x| h.2.active().contains(x));
+                // it was resolved with an address learned on k
+                let had_k_address = d.log[..h.0].iter().any(|e| matches!(&e.ev, Ev::Svc { ev: ServiceEvent::ServiceResolved(r), .. } if r.fullname.starts_with("m.") && r.addresses.iter().any(|a| subnet_of(&a.to_ip_addr()) == Some(k))));
+                if !quiet || !home_stays || !had_k_address {
+                    break 'e;
+                }
+                multi_checked += 1;
+                let deadline = h.1 + GRACE_MS + 50;
+                if deadline >= final_time {
+                    break 'e;
+                }
+                let again = d.log[h.0..].iter().any(|e| {
+                    e.t <= deadline
+                        && matches!(&e.ev, Ev::Svc { ev: ServiceEvent::ServiceResolved(r), .. } if r.fullname.starts_with("m.") && !r.addresses.is_empty() && r.addresses.iter().all(|a| subnet_of(&a.to_ip_addr()) != Some(k)))
+                });
+                if !again {
+                    fail!(
+                        "C18/instance-not-resolved-again-with-what-is-left",
+                        "{} disappeared at +{} ms; the instance m (first heard on {}, also heard on {}) had been resolved with an address learned on {}, but no ServiceResolved without that address came by +{} ms",
+                        if_name(k),
+                        h.1 - T0,
+                        if_name(home),
+                        if_name(k),
+                        if_name(k),
+                        deadline - T0
+                    );
+                }
+                break 'e;
+            }
+        }
+    }
+    ctx.class_if(multi_checked > 0, "multi-homed-instance-lost-an-interface");
     let n_sel = case.ops.iter().filter(|o| matches!(o, Op::Select { .. })).count();
     let n_tab = hist.iter().filter(|h| h.3 > h.1).count();
     ctx.class_if(n_sel > 0, "selections");
@@ -642,6 +743,7 @@ pub fn strategy() -> BoxedStrategy<Case> {
         2 => (0usize..3).prop_map(|k| TableOp::Down { k }),
         2 => (0usize..3).prop_map(|k| TableOp::Up { k }),
         1 => (0usize..3).prop_map(|k| TableOp::Move { k }),
+        1 => (0usize..3).prop_map(|k| TableOp::Reprefix { k }),
     ];
     let op = prop_oneof![
         5 => (any::<bool>(), sel).prop_map(|(enable, sel)| Op::Select { enable, sel }),
@@ -650,11 +752,28 @@ pub fn strategy() -> BoxedStrategy<Case> {
         1 => Just(Op::Unregister),
         4 => (0usize..3, any::<bool>()).prop_map(|(k, v6)| Op::Announce { k, v6 }),
         2 => (0usize..3, any::<bool>()).prop_map(|(k, v6)| Op::Query { k, v6 }),
+        2 => (0usize..3, any::<bool>()).prop_map(|(k, v6)| Op::AnnounceMulti { k, v6 }),
         2 => Just(Op::BrowseAgain),
         3 => prop_oneof![Just(0u64), Just(500), Just(1200), 0u64..3000].prop_map(|ms| Op::Advance { ms }),
     ];
-    (iftable(3), prop::bool::weighted(0.4), prop::collection::vec(any::<bool>(), 3), prop::bool::weighted(0.85), prop::bool::weighted(0.4), prop::bool::weighted(0.7), prop::collection::vec(op, 1..10))
-        .prop_map(|(ifs, auto, on, svc_v4, svc_v6, early, mut ops)| {
+    (iftable(3), prop::bool::weighted(0.4), prop::collection::vec(any::<bool>(), 3), prop::bool::weighted(0.85), prop::bool::weighted(0.4), prop::bool::weighted(0.7), (prop::collection::vec(op, 1..10), prop::option::weighted(0.15, (any::<bool>(), any::<bool>()))))
+        .prop_map(|(ifs, auto, on, svc_v4, svc_v6, early, (mut ops, multi))| {
+            // some histories begin with the multi-homed peer heard on two interfaces, one of which
+            // then goes away
+            if let (Some((second_goes, by_down)), true) = (multi, ifs.len() >= 2) {
+                let fam = |k: usize| !ifs[k].v4;
+                let gone = if second_goes { 1 } else { 0 };
+                let home = 1 - gone;
+                ops.insert(0, Op::AnnounceMulti { k: home, v6: fam(home) });
+                ops.insert(1, Op::AnnounceMulti { k: gone, v6: fam(gone) });
+                ops.insert(2, Op::Advance { ms: 200 });
+                if by_down {
+                    ops.insert(3, Op::Table(TableOp::Down { k: gone }));
+                } else {
+                    ops.insert(3, Op::Table(TableOp::DelFam { k: gone, v6: false }));
+                    ops.insert(4, Op::Table(TableOp::DelFam { k: gone, v6: true }));
+                }
+            }
             if early {
                 ops.insert(0, Op::Register);
                 ops.insert(1, Op::Advance { ms: 2500 });
@@ -675,13 +794,13 @@ pub fn run(tier: Tier) -> i32 {
     let mut agg = Agg::new("C18", tier);
     agg.assume("simulation: the interface table is the hook's (set_interfaces), the daemon polls it every second; packets in the 1100 ms after a change of the table are not judged (the daemon cannot know yet); enable/disable calls count from the call on");
     agg.assume("an interface that vanishes while every family of it is disabled is not judged for the removal of what had been learned on it before; a service with explicit addresses is demanded to be answered for only on links that have been active since its registration (only automatic addressing is promised to follow addresses)");
-    agg.assume("the simulated network delivers a peer's packet only on an interface / family on which the daemon is active according to the model (elsewhere it has left the multicast group); each peer instance lives on one interface; Predicate and loopback selections are not generated");
+    agg.assume("the simulated network delivers a peer's packet only on an interface / family on which the daemon is active according to the model (elsewhere it has left the multicast group); each interface has a peer instance of its own, and one multi-homed instance (upper-case host name) announces itself on every interface with the address it has there; it is judged for being resolved again after losing an interface only in histories where nothing else happened to the two interfaces involved; Predicate and loopback selections are not generated");
     run_regressions::<Case>(&mut agg, "interfaces", &check);
     run_part(
         &mut agg,
         &Part {
             name: "interfaces",
-            rule: "1-3 interfaces with IPv4 and/or IPv6 on different subnets; a service with explicit addresses in a generated subset of the subnets (IPv4/IPv6) or automatic addressing; 1-9 operations: enable/disable selections of 7 kinds (all, family, name, address, index per family), interface events (family added / removed, interface down / up, address moved), register / unregister, peers announcing an instance per interface, queries, pauses; at the end a PTR query on every active interface / family; non-trivial = a selection or an interface event took place",
+            rule: "1-3 interfaces with IPv4 and/or IPv6 on different subnets; a service with explicit addresses in a generated subset of the subnets (IPv4/IPv6) or automatic addressing; 1-9 operations: enable/disable selections of 7 kinds (all, family, name, address, index per family), interface events (family added / removed, interface down / up, address moved, prefix length changed), register / unregister, peers announcing an instance per interface, a multi-homed peer announcing on several, queries, pauses; at the end a PTR query on every active interface / family; non-trivial = a selection or an interface event took place",
             cases: scale(tier.pick(25_000, 600_000)),
             max_shrink_iters: 500,
             strategy: &strategy,
@@ -693,6 +812,7 @@ pub fn run(tier: Tier) -> i32 {
     agg.require_class("interfaces:vanished-interface-with-found-instance", 500);
     agg.require_class("interfaces:resolved-addresses-judged", 3_000);
     agg.require_class("interfaces:service-on-a-subset-of-the-interfaces", 3_000);
+    agg.require_class("interfaces:multi-homed-instance-lost-an-interface", 400);
     agg.finish()
 }
 
